@@ -295,6 +295,9 @@ def naming(eng: Engine, ctx: Ctx, rid: str, model: DecoderModel):
         okb = body == app or (body is not None and body[0] == "ite" and body[2] == app and body[3] == ("loop", lid, nv) and body[1] in (("cmp", ">", elem, ("const", 0)), ("cmp", ">=", elem, ("const", 1)), ("cmp", "!=", elem, ("const", 0)), elem))
         ctx.check(bool(okb), rid, f.qualname, "suffix appended per index level", expected=f"name += f'{sep}{{i:{spec}}}' for every level (i >= 1)", found=show(body)[:120] if body else "-", **eng.loc(f, info["node"]))
         name_terms.add(("loopout", lid, nv))
+    elif SH.suffix_field_form(eng) is not None:
+        _naming_field_form(eng, ctx, rid, model, name_terms)
+        lid, nv = None, None
     else:
         # comprehension form: key + "".join(f"<sep>{i:<spec>}" for i in index [if i > 0])
         cand = None
@@ -311,6 +314,7 @@ def naming(eng: Engine, ctx: Ctx, rid: str, model: DecoderModel):
             return
         name_terms.add(cand)
         lid, nv = None, None
+    SH.suffix_table_domain(eng, ctx, rid)
     ctx.check(spec == "02d" and sep == "_", rid, f.qualname, "suffix format", expected="'_' + two-digit zero-padded index", found=f"{sep!r} + ':{spec}'", **loc)
     # the generic store uses that name; text fields use the bare key
     sets = [e for e in se.effects if e.kind == "call" and e.term[2] == ("builtin", "setattr") and len(e.term[3]) == 3]
@@ -326,6 +330,57 @@ def naming(eng: Engine, ctx: Ctx, rid: str, model: DecoderModel):
             ctx.check(notstr or not isstr, rid, f.qualname, norm(e.node)[:70], expected="indexed name for all other fields", found=guard_text(e.guards)[:80], **eng.loc(f, e.node))
         ctx.check(e.term[3][0] == ("self",), rid, f.qualname, f"{norm(e.node)[:50]} target", expected="stored on the instance", found=show(e.term[3][0]), **eng.loc(f, e.node))
     ctx.instance("generic value stores", len(gen), 2)
+
+
+def _naming_field_form(eng: Engine, ctx: Ctx, rid: str, model: DecoderModel, name_terms: set):
+    """Stateful naming: name = key + self.F; the group routine pushes f"{sep}{i:spec}" onto F at the start of each iteration and pops it at
+    the end.  Sound only if the popped length equals the pushed length for every index the definitions can generate."""
+    F, sep, spec, push = SH.suffix_field_form(eng)
+    f = model.f
+    g = eng.repo.func(eng.group_routine)
+    sg = eng.symeval(g.qualname)
+    name_terms.add(("bin", "+", ("param", model.anam), ("field", F)))
+    # initial value
+    init = eng.repo.func(f"{eng.message_cls}.__init__")
+    inits = [e for e in model.init.effects if e.kind == "store" and e.target == ("self", F)]
+    ctx.check(len(inits) == 1 and inits[0].term == ("const", "") and not inits[0].loops, rid, init.qualname, f"initial value of self.{F}", expected="'' (no index level)",
+              found=", ".join(show(e.term)[:30] for e in inits) or "not initialised", **eng.loc(init, inits[0].node if inits else init.node))
+    # writers: the push and one pop in the group loop, nothing else in the class
+    mod, cls = eng.message_cls.split(".")
+    writers = []
+    for m in eng.repo.methods(mod, cls):
+        sm = eng.symeval(m.qualname)
+        for e in sm.effects:
+            if e.kind in ("store", "aug") and e.target == ("self", F) and m.name != "__init__":
+                writers.append((m, e))
+    pushes = [(m, e) for m, e in writers if e.kind == "aug"]
+    pops = [(m, e) for m, e in writers if e.kind == "store"]
+    okw = len(pushes) == 1 and len(pops) == 1 and all(m.qualname == g.qualname for m, _ in writers) and pushes[0][1].loops == pops[0][1].loops and len(pushes[0][1].loops) == 1
+    ctx.check(okw, rid, g.qualname, f"writers of self.{F}", expected="one push and one pop per iteration of the group loop, nowhere else", found=f"{len(pushes)} push(es), {len(pops)} other store(s) in {sorted({m.name for m, _ in writers})}", **eng.loc(g, g.node))
+    if not okw:
+        return
+    pe, qe = pushes[0][1], pops[0][1]
+    lid = pe.loops[0]
+    # pushed index = the value stored into the index stack in the same iteration
+    idx_sets = [e for e in sg.effects if e.kind == "setitem" and e.loops == (lid,) and e.target[0] == "item" and e.target[2] == ("const", -1)]
+    X = pe.term[3][1][1][1]
+    ctx.check(len(idx_sets) == 1 and idx_sets[0].term == X and not pe.guards, rid, g.qualname, "pushed index", expected="the index stored in the index stack for this iteration, pushed unconditionally",
+              found=f"{show(X)[:60]} vs index store {show(idx_sets[0].term)[:60] if idx_sets else '-'}", **eng.loc(g, pe.node))
+    # pop: F = F[:-k] after the nested calls, k = pushed length for EVERY index
+    t = qe.term
+    okp = t[0] == "slice" and t[2] == ("const", None) and t[4] == ("const", None) and is_const(t[3]) and isinstance(t[3][1], int) and t[3][1] < 0 and t[1][0] in ("loopout", "field", "fieldv", "havoc") and not qe.guards
+    ctx.check(okp, rid, g.qualname, f"pop of self.{F}", expected=f"self.{F} = self.{F}[:-k] at the end of the iteration", found=show(t)[:80], **eng.loc(g, qe.node))
+    if not okp:
+        return
+    k = -t[3][1]
+    digits = int(spec[1:-1]) if spec[:1] == "0" and spec.endswith("d") and spec[1:-1].isdigit() else None
+    bound, wit = SH.max_group_index(eng)
+    if digits is None:
+        ctx.undecided(rid, g.qualname, f"pop of self.{F}", detail=f"format spec {spec!r} not understood", **eng.loc(g, qe.node))
+        return
+    ctx.check(k == len(sep) + digits and bound < 10 ** digits, rid, g.qualname, "popped length equals pushed length for every index",
+              expected=f"len('{sep}' + format(i, '{spec}')) == {k} for all i <= {bound}",
+              found=(f"pushed piece has {len(sep) + digits} characters, {k} removed" if k != len(sep) + digits else f"index >= {10 ** digits} formats to more than {digits} digits, leaving residue in self.{F}: {wit}"), **eng.loc(g, qe.node))
 
 
 # ============================================================================ D5b offset threading
